@@ -67,7 +67,31 @@ def path_kind(node: ast.AST, env: dict[str, ast.AST], depth: int = 0) -> str:
     raise Untranslatable(f"cannot resolve path `{ast.unparse(node)}`")
 
 
-def save_table(fn: ast.FunctionDef) -> list[str]:
+_DELETES = ("os.remove", "os.unlink", "os.rmdir", "shutil.rmtree", "os.removedirs")
+_WRITES = ("os.replace", "os.rename", "shutil.move", "shutil.copy", "shutil.copyfile", "torch.save")
+
+
+def _deletes_files(fn: ast.AST, cls: ast.ClassDef | None, depth: int = 0) -> bool:
+    """does this function (or a method of the same class it calls) delete files?  Any other file-writing operation in a
+    helper is not understood."""
+    found = False
+    for n in ast.walk(fn):
+        if isinstance(n, ast.Call):
+            f = ast.unparse(n.func)
+            if f in _DELETES or (isinstance(n.func, ast.Attribute) and n.func.attr in ("unlink", "rmdir")):
+                found = True
+            elif f in _WRITES or (isinstance(n.func, ast.Attribute) and n.func.attr in ("write_text", "write_bytes", "rename", "replace", "touch")) \
+                    or (f == "open" and any(isinstance(a, ast.Constant) and isinstance(a.value, str) and set(a.value) & set("wax+")
+                                            for a in list(n.args[1:2]) + [k.value for k in n.keywords if k.arg == "mode"])):
+                raise Untranslatable(f"file operation `{ast.unparse(n)[:60]}` inside a helper of save")
+            elif f.startswith("self.") and f.count(".") == 1 and cls is not None and depth < 3:
+                m = next((b for b in cls.body if isinstance(b, ast.FunctionDef) and b.name == f[5:]), None)
+                if m is not None and m is not fn and _deletes_files(m, cls, depth + 1):
+                    found = True
+    return found
+
+
+def save_table(fn: ast.FunctionDef, cls: ast.ClassDef | None = None) -> list[str]:
     env: dict[str, ast.AST] = {}
     out: list[str] = []
 
@@ -87,7 +111,13 @@ def save_table(fn: ast.FunctionDef) -> list[str]:
             if len(c.args) != 1 or ast.unparse(c.args[0]).replace(" ", "") != "str(iteration)":
                 raise Untranslatable(f"`{ast.unparse(c)}` does not write str(iteration)")
             out.append(f".writeLabel {open_files[c.func.value.id]}")
-        elif isinstance(c.func, ast.Attribute) and c.func.attr in ("write_text", "write_bytes", "unlink", "rename", "replace") \
+        elif f in _DELETES or (isinstance(c.func, ast.Attribute) and c.func.attr in ("unlink", "rmdir")):
+            out.append(".prune")
+        elif f.startswith("self.") and f.count(".") == 1 and cls is not None:
+            m = next((b for b in cls.body if isinstance(b, ast.FunctionDef) and b.name == f[5:]), None)
+            if m is not None and _deletes_files(m, cls):
+                out.append(".prune")
+        elif isinstance(c.func, ast.Attribute) and c.func.attr in ("write_text", "write_bytes", "rename", "replace") \
                 and f not in ("os.replace",) and not f.startswith("datetime"):
             raise Untranslatable(f"file operation `{ast.unparse(c)}` is not understood")
 
@@ -119,7 +149,8 @@ def save_table(fn: ast.FunctionDef) -> list[str]:
                 before = len(out)
                 walk(st.body, open_files)
                 walk(getattr(st, "orelse", []), open_files)
-                if len(out) != before and not (isinstance(st, ast.If) and ast.unparse(st.test) == "not self.save_to_disk"):
+                if len(out) != before and not (isinstance(st, ast.If) and ast.unparse(st.test) == "not self.save_to_disk") \
+                        and not all(o == ".prune" for o in out[before:]):     # optional pruning: which files = `dels`
                     raise Untranslatable("file operation under a condition / loop")
             else:
                 for c in sorted((n for n in ast.walk(st) if isinstance(n, ast.Call)), key=lambda n: (n.lineno, n.col_offset)):
@@ -131,11 +162,16 @@ def save_table(fn: ast.FunctionDef) -> list[str]:
     return out
 
 
+def checkpointer_class(tree: ast.AST) -> ast.ClassDef | None:
+    return next((n for n in ast.walk(tree) if isinstance(n, ast.ClassDef) and n.name == "Checkpointer"), None)
+
+
 def _save_extra():
     name = "saveStmts"
     try:
-        fn = find_function(parse_file(REPO / CK), "Checkpointer.save")
-        rows = save_table(fn)
+        tree = parse_file(REPO / CK)
+        fn = find_function(tree, "Checkpointer.save")
+        rows = save_table(fn, checkpointer_class(tree))
         return (f"/-- translated from `{CK}`:`Checkpointer.save` (order of the file operations) -/\n"
                 f"def {name} : List Ckpt.Stmt := [{', '.join(rows)}]\n"), {name: "translated"}
     except Untranslatable as e:
@@ -546,6 +582,19 @@ def _engine_extra():
         else:
             chunks.append(f"/-- read from `{where}` -/\ndef {name} : {ty} := {v}\n")
             status[name] = "translated"
+    try:
+        from props.c15_engine import train_objects     # introspection of a real engine (harness side)
+
+        rows = train_objects()
+        body = ", ".join(f'("{k}", {"false" if kind == "dropped" else "true"})' for k, kind in rows)
+        chunks.append("/-- by introspection of a real `Engine.train`: every object handed to the Checkpointer, and whether "
+                      "`Checkpointer.save` keeps it (HasStateDict or `__meta__`) -/\n"
+                      f"def trainObjects : List (String × Bool) := [{body}]\n")
+        status["trainObjects"] = "translated"
+    except Exception as e:  # noqa: BLE001 - the engine cannot be built in this tree: rely on the oracle
+        chunks.append(f"/-- SKIPPED ({type(e).__name__}: {str(e)[:80]}); stands for the hand-written model -/\n"
+                      "def trainObjects : List (String × Bool) := C15E.trainObjects\n")
+        status["trainObjects"] = f"skipped: {type(e).__name__}"
     v = facts["solver_steps"]
     if v.startswith("!"):
         chunks.append(f"/-- SKIPPED ({v[1:]}); stands for the hand-written model -/\n"
